@@ -1306,7 +1306,9 @@ class CodeBuilder:
         ):
             return repr(value)
         elif isinstance(value, tuple) and not is_named_tuple(type(value)):
-            return repr(value)
+            # items such as enum members have no literal form of their own
+            items = [self.get_field_default_literal(v) for v in value]
+            return "(" + "".join(f"{item}," for item in items) + ")"
         else:
             name = f"v_{uuid.uuid4().hex}"
             self.ensure_object_imported(value, name)
